@@ -6,6 +6,7 @@ import (
 	"fmt"
 	"runtime/debug"
 	"sync"
+	"sync/atomic"
 	"time"
 
 	simplefixgo "github.com/b2broker/simplefix-go"
@@ -57,6 +58,9 @@ type StepCfg struct {
 	SentinelBarrier bool
 }
 
+// Timeouts counts watchdog expiries of all step rigs in this process.
+var Timeouts int64
+
 // SentinelType is the MsgType of the sentinel message.
 const SentinelType = "ZZS"
 
@@ -75,16 +79,16 @@ type Out struct {
 
 // StepResult is what one step produced and the state sampled after it.
 type StepResult struct {
-	Outs      []Out
-	Logged    bool
-	CtxErr    error
-	Events    []utils.Event // events fired during this step
-	RunEnded  bool          // the handler's Run loop returned during/before this step
-	RunErr    error
-	Panic     string // panic inside the handler's Run goroutine (library frames), with stack
-	TimedOut  bool   // watchdog fired: nothing is known about this step
-	SendErr   error  // result of a local action
-	Took      time.Duration
+	Outs     []Out
+	Logged   bool
+	CtxErr   error
+	Events   []utils.Event // events fired during this step
+	RunEnded bool          // the handler's Run loop returned during/before this step
+	RunErr   error
+	Panic    string // panic inside the handler's Run goroutine (library frames), with stack
+	TimedOut bool   // watchdog fired: nothing is known about this step
+	SendErr  error  // result of a local action
+	Took     time.Duration
 }
 
 // StepRig is a real DefaultHandler + Session driven one step at a time.
@@ -116,7 +120,7 @@ var allEvents = []utils.Event{utils.EventDisconnect, utils.EventConnect, utils.E
 // NewStepRig builds and starts the handler and session.
 func NewStepRig(cfg StepCfg) (*StepRig, error) {
 	if cfg.Watchdog == 0 {
-		cfg.Watchdog = 10 * time.Second
+		cfg.Watchdog = 5 * time.Second
 	}
 	if cfg.Counter == nil || cfg.Messages == nil {
 		st := memory.NewStorage()
@@ -203,9 +207,7 @@ func NewStepRig(cfg StepCfg) (*StepRig, error) {
 	if cfg.AfterRun != nil {
 		cfg.AfterRun(r.H, r.S)
 	}
-	if cfg.SentinelBarrier {
-		r.ensureBarrier(SentinelType)
-	} else {
+	if !cfg.SentinelBarrier {
 		for _, t := range []string{"A", "5", "0", "1", "2", "3", "4", "V", "W", "X", "Y", "D", "8", "ZZ"} {
 			r.ensureBarrier(t)
 		}
@@ -276,6 +278,13 @@ func (r *StepRig) sample(res *StepResult, t0 time.Time) {
 func (r *StepRig) Inbound(msg []byte) StepResult {
 	t0 := time.Now()
 	m := r.mark()
+	if atomic.LoadInt64(&Timeouts) > 40 {
+		// circuit breaker: the code under test stopped serving messages; do not spend the watchdog on every further step
+		res := r.since(m)
+		res.TimedOut = true
+		r.sample(&res, t0)
+		return res
+	}
 	if !r.Cfg.SentinelBarrier {
 		if fs, err := fixref.TokenizeLoose(msg); err == nil {
 			if ty, ok := fixref.Get(fs, "35"); ok {
@@ -301,19 +310,23 @@ func (r *StepRig) Inbound(msg []byte) StepResult {
 		r.sample(&res, t0)
 		return res
 	case <-timer.C:
+		atomic.AddInt64(&Timeouts, 1)
 		res = r.since(m)
 		res.TimedOut = true
 		r.sample(&res, t0)
 		return res
 	}
-	select {
-	case <-r.barrier:
-	case <-r.runDone:
-	case <-timer.C:
-		res = r.since(m)
-		res.TimedOut = true
-		r.sample(&res, t0)
-		return res
+	if !r.Cfg.SentinelBarrier {
+		select {
+		case <-r.barrier:
+		case <-r.runDone:
+		case <-timer.C:
+			atomic.AddInt64(&Timeouts, 1)
+			res = r.since(m)
+			res.TimedOut = true
+			r.sample(&res, t0)
+			return res
+		}
 	}
 	r.syncCollector()
 	res = r.since(m)
